@@ -8,7 +8,7 @@ EXPLANATION = ('Value-flow normal forms of NUTSChain::step (doubling loop summar
                'of the U-turn criterion, compared line by line with Algorithm 6 of Hoffman & Gelman (2014) plus the property\'s divergence bound 1000 and the '
                'acceptance statistic (sum of min(1, exp(joint - joint0)) and count over the last doubling). Polymorphic bodies: all T, B, targets, step sizes, depths. '
                'Uniformity of the selected state (a probabilistic consequence of the weights) and numerical trajectories are not decided.')
-FLOORS = {'obligations': 55}   # counted on the reference tree; fewer instantiated obligations is reported, never passed silently
+FLOORS = {'obligations': 56}   # counted on the reference tree; fewer instantiated obligations is reported, never passed silently
 TECHNIQUE = 'value-flow normal form + loop summary + recursion summary (symbolic result tuples) vs specification table'
 ULG = 'distributions::GradientTarget::unnorm_logp_and_grad'
 HALF = T.div(T.ONE, N(2))
@@ -66,6 +66,9 @@ def frame_rules(ctx):
     frame.check_frame(ctx, 'C03', 'nuts::NUTS', {'chains': {'nuts::NUTS::new', 'nuts::NUTS::run', RP, SSEED}},
                       why='the runner only steps and re-seeds its chains')
     frame.shadowing(ctx, 'C03', ['nuts::NUTSChain', 'nuts::NUTS'])
+    frame.no_override(ctx, 'C03', 'distributions::GradientTarget', 'unnorm_logp_and_grad',
+                      why='the leapfrog reads value and gradient through this provided method and the obligations below take the second component to be the gradient of the first; '
+                          'an implementor that overrides it can hand NUTS a vector field that is not the gradient of the density used in the slice / divergence / acceptance tests')
 
 
 def run(ctx):
